@@ -537,6 +537,16 @@ fn array_positional(words: &[u64], p: &Persist, out: &mut RunOut) {
                     if got_le.as_slice() != &le[..] {
                         out.viol("C16/positional", "ArrayEncoding::to_le_byte_array:le".into(), format!("to_le_byte_array({}) = {}", hexw(words), hex(got_le.as_slice())), plan_json(p));
                     }
+                    {
+                        // the array-side spelling of the same two decoders
+                        use crypto_bigint::ArrayDecoding;
+                        if got_be.clone().into_uint_be() != x {
+                            out.viol("C16/positional", "ArrayDecoding::into_uint_be:be".into(), format!("to_be_byte_array({}).into_uint_be() differs", hexw(words)), plan_json(p));
+                        }
+                        if got_le.clone().into_uint_le() != x {
+                            out.viol("C16/positional", "ArrayDecoding::into_uint_le:le".into(), format!("to_le_byte_array({}).into_uint_le() differs", hexw(words)), plan_json(p));
+                        }
+                    }
                     if Uint::<$n>::from_be_byte_array(got_be) != x {
                         out.viol("C16/positional", "ArrayEncoding::from_be_byte_array:be".into(), format!("from_be_byte_array(to_be_byte_array({})) differs", hexw(words)), plan_json(p));
                     }
